@@ -220,6 +220,24 @@ pub fn run_history(line: &str) -> String {
 						let e = serde_avro_fast::to_datum_vec(&ImpossibleValue, &mut config).err().map(|e| e.to_string());
 						format!("{:?} | {:?}", s, e)
 					};
+					// a rendering that its sink refuses part-way (a bounded buffer, a closed pipe) is
+					// part of a thread's history: it must leave nothing behind that changes the next one
+					struct Limited(usize);
+					impl std::fmt::Write for Limited {
+						fn write_str(&mut self, x: &str) -> std::fmt::Result {
+							if x.len() > self.0 {
+								return Err(std::fmt::Error);
+							}
+							self.0 -= x.len();
+							Ok(())
+						}
+					}
+					{
+						use std::fmt::Write as _;
+						for cap in [0usize, 9, 40, 120] {
+							let _ = write!(Limited(cap + k % 7), "{:?}", s);
+						}
+					}
 					let seq_text = observe_text(s);
 					let iters = if cfg!(miri) { 3 } else { 150 };
 					let results: Vec<String> = std::thread::scope(|scope| {
